@@ -65,7 +65,7 @@ PROPS = {
         "assumptions": GEO_ASSUME,
         "stages": [
             {"kind": "mc", "module": "MC_Geo", "cfg": {"quick": "MC_Geo.cfg", "thorough": "MC_Geo_thorough.cfg"}, "workers": 6},
-            {"kind": "rec", "scenario": "C02", "count": {"quick": 6000, "thorough": 150000}, "trace_module": "Trace_Geo", "trace_cfg": "Trace_Geo.cfg",
+            {"kind": "rec", "profiles": ["release", "debug"], "scenario": "C02", "count": {"quick": 6000, "thorough": 150000}, "trace_module": "Trace_Geo", "trace_cfg": "Trace_Geo.cfg",
              "nontrivial": lambda ev: ev.get("cls") != "uniform"},
         ],
     },
@@ -87,9 +87,9 @@ PROPS = {
         "stages": [
             {"kind": "mc", "module": "MC_Geo", "cfg": {"quick": "MC_Geo.cfg", "thorough": "MC_Geo_thorough.cfg"}, "workers": 6},
             {"kind": "mc", "module": "MC_NeighAlgo", "cfg": {"quick": "MC_NeighAlgo.cfg", "thorough": "MC_NeighAlgo_thorough.cfg"}, "workers": 4},
-            {"kind": "gen", "module": "Gen_Neigh", "cfg": {"quick": "Gen_Neigh.cfg", "thorough": "Gen_Neigh_thorough.cfg"}, "scenario": "C04", "exhaustive": True},
-            {"kind": "gen", "module": "Gen_NeighTables", "cfg": "Gen_NeighTables_bn.cfg", "scenario": "TABLES", "exhaustive": True},
-            {"kind": "rec", "scenario": "C04", "count": {"quick": 8000, "thorough": 200000}, "trace_module": "Trace_Geo", "trace_cfg": "Trace_Geo.cfg",
+            {"kind": "gen", "profiles": ["release", "debug"], "module": "Gen_Neigh", "cfg": {"quick": "Gen_Neigh.cfg", "thorough": "Gen_Neigh_thorough.cfg"}, "scenario": "C04", "exhaustive": True},
+            {"kind": "gen", "profiles": ["release", "debug"], "module": "Gen_NeighTables", "cfg": "Gen_NeighTables_bn.cfg", "scenario": "TABLES", "exhaustive": True},
+            {"kind": "rec", "profiles": ["release", "debug"], "scenario": "C04", "count": {"quick": 8000, "thorough": 200000}, "trace_module": "Trace_Geo", "trace_cfg": "Trace_Geo.cfg",
              "nontrivial": lambda ev: ev["ev"] == "neigh" and (ev["c"][1] in (0, 2 ** ev["d"] - 1) or ev["c"][2] in (0, 2 ** ev["d"] - 1))},
         ],
     },
@@ -112,9 +112,9 @@ PROPS = {
         "stages": [
             {"kind": "mc", "module": "MC_Geo", "cfg": {"quick": "MC_Geo.cfg", "thorough": "MC_Geo_thorough.cfg"}, "workers": 6},
             {"kind": "mc", "module": "MC_NeighAlgo", "cfg": {"quick": "MC_NeighAlgo.cfg", "thorough": "MC_NeighAlgo_thorough.cfg"}, "workers": 4},
-            {"kind": "gen", "module": "Gen_Edges", "cfg": {"quick": "Gen_Edges.cfg", "thorough": "Gen_Edges_thorough.cfg"}, "scenario": "C14", "exhaustive": True},
-            {"kind": "gen", "module": "Gen_NeighTables", "cfg": "Gen_NeighTables_dfn.cfg", "scenario": "TABLES", "exhaustive": True},
-            {"kind": "rec", "scenario": "C14", "count": {"quick": 1600, "thorough": 40000}, "trace_module": "Trace_Geo", "trace_cfg": "Trace_Geo.cfg",
+            {"kind": "gen", "profiles": ["release", "debug"], "module": "Gen_Edges", "cfg": {"quick": "Gen_Edges.cfg", "thorough": "Gen_Edges_thorough.cfg"}, "scenario": "C14", "exhaustive": True},
+            {"kind": "gen", "profiles": ["release", "debug"], "module": "Gen_NeighTables", "cfg": "Gen_NeighTables_dfn.cfg", "scenario": "TABLES", "exhaustive": True},
+            {"kind": "rec", "profiles": ["release", "debug"], "scenario": "C14", "count": {"quick": 1600, "thorough": 40000}, "trace_module": "Trace_Geo", "trace_cfg": "Trace_Geo.cfg",
              "nontrivial": lambda ev: ev["c"][1] in (0, 2 ** ev["d"] - 1) or ev["c"][2] in (0, 2 ** ev["d"] - 1)},
         ],
     },
@@ -135,8 +135,8 @@ PROPS = {
         "stages": [
             {"kind": "mc", "module": "MC_Ring", "cfg": {"quick": "MC_Ring.cfg", "thorough": "MC_Ring_thorough.cfg"}, "workers": 6},
             {"kind": "mc", "module": "MC_RingAlgo", "cfg": {"quick": "MC_RingAlgo.cfg", "thorough": "MC_RingAlgo_thorough.cfg"}, "workers": 4},
-            {"kind": "gen", "module": "Gen_Ring", "cfg": {"quick": "Gen_Ring_pairs.cfg", "thorough": "Gen_Ring_pairs_thorough.cfg"}, "scenario": "C10", "exhaustive": True},
-            {"kind": "rec", "scenario": "C10", "count": {"quick": 15000, "thorough": 300000}, "trace_module": "Trace_Geo", "trace_cfg": "Trace_Geo.cfg"},
+            {"kind": "gen", "profiles": ["release", "debug"], "module": "Gen_Ring", "cfg": {"quick": "Gen_Ring_pairs.cfg", "thorough": "Gen_Ring_pairs_thorough.cfg"}, "scenario": "C10", "exhaustive": True},
+            {"kind": "rec", "profiles": ["release", "debug"], "scenario": "C10", "count": {"quick": 15000, "thorough": 300000}, "trace_module": "Trace_Geo", "trace_cfg": "Trace_Geo.cfg"},
         ],
     },
     "C11": {
@@ -153,8 +153,8 @@ PROPS = {
         "assumptions": GEO_ASSUME,
         "stages": [
             {"kind": "mc", "module": "MC_Ring", "cfg": {"quick": "MC_Ring.cfg", "thorough": "MC_Ring_thorough.cfg"}, "workers": 6},
-            {"kind": "gen", "module": "Gen_Ring", "cfg": {"quick": "Gen_Ring_faces.cfg", "thorough": "Gen_Ring_faces_thorough.cfg"}, "scenario": "C11", "exhaustive": True},
-            {"kind": "rec", "scenario": "C11", "count": {"quick": 16000, "thorough": 400000}, "trace_module": "Trace_Geo", "trace_cfg": "Trace_Geo.cfg",
+            {"kind": "gen", "profiles": ["release", "debug"], "module": "Gen_Ring", "cfg": {"quick": "Gen_Ring_faces.cfg", "thorough": "Gen_Ring_faces_thorough.cfg"}, "scenario": "C11", "exhaustive": True},
+            {"kind": "rec", "profiles": ["release", "debug"], "scenario": "C11", "count": {"quick": 16000, "thorough": 400000}, "trace_module": "Trace_Geo", "trace_cfg": "Trace_Geo.cfg",
              "nontrivial": seamish},
         ],
     },
@@ -217,7 +217,7 @@ PROPS = {
             {"kind": "mc", "module": "MC_BmocAlgo", "cfg": {"quick": "MC_BmocAlgo.cfg", "thorough": "MC_BmocAlgo_thorough.cfg"}, "workers": 6},
             {"kind": "gentrace", "module": "Gen_Bmoc", "cfg": {"quick": "Gen_Bmoc_plain.cfg", "thorough": "Gen_Bmoc_plain.cfg"}, "scenario": "BMOC",
              "trace_module": "Trace_Bmoc", "trace_cfg": "Trace_Bmoc.cfg", "exhaustive": True, "clauses": ["panic", "dmax", "semantics", "canonical", "law_holds", "operand_wellformed"]},
-            {"kind": "rec", "scenario": "C07", "count": {"quick": 3000, "thorough": 60000}, "trace_module": "Trace_Bmoc", "trace_cfg": "Trace_Bmoc.cfg",
+            {"kind": "rec", "profiles": ["release", "debug"], "other_profile_frac": 0.5, "scenario": "C07", "count": {"quick": 3000, "thorough": 60000}, "trace_module": "Trace_Bmoc", "trace_cfg": "Trace_Bmoc.cfg",
              "shards": 10, "clauses": ["panic", "dmax", "semantics", "canonical", "law_holds", "operand_wellformed"],
              "nontrivial": lambda ev: ev["ev"] in ("op", "law")},
         ],
@@ -240,7 +240,7 @@ PROPS = {
             {"kind": "mc", "module": "MC_BmocAlgo", "cfg": {"quick": "MC_BmocAlgo.cfg", "thorough": "MC_BmocAlgo_thorough.cfg"}, "workers": 6},
             {"kind": "gentrace", "module": "Gen_Bmoc", "cfg": {"quick": "Gen_Bmoc_flags.cfg", "thorough": "Gen_Bmoc_flags_thorough.cfg"}, "scenario": "BMOC",
              "trace_module": "Trace_Bmoc", "trace_cfg": "Trace_Bmoc.cfg", "exhaustive": True, "clauses": ["panic", "dmax", "semantics", "operand_wellformed"]},
-            {"kind": "rec", "scenario": "C08", "count": {"quick": 3000, "thorough": 60000}, "trace_module": "Trace_Bmoc", "trace_cfg": "Trace_Bmoc.cfg",
+            {"kind": "rec", "profiles": ["release", "debug"], "other_profile_frac": 0.5, "scenario": "C08", "count": {"quick": 3000, "thorough": 60000}, "trace_module": "Trace_Bmoc", "trace_cfg": "Trace_Bmoc.cfg",
              "shards": 10, "clauses": ["panic", "dmax", "semantics", "operand_wellformed"], "nontrivial": lambda ev: ev["ev"] == "op"},
         ],
     },
@@ -261,7 +261,7 @@ PROPS = {
             {"kind": "gentrace", "module": "Gen_Bmoc", "cfg": {"quick": "Gen_Bmoc_cells.cfg", "thorough": "Gen_Bmoc_cells.cfg"}, "scenario": "BMOC",
              "trace_module": "Trace_Bmoc", "trace_cfg": "Trace_Bmoc.cfg", "exhaustive": True,
              "clauses": ["wellformed", "entries", "raw_encoding", "deep_size", "ranges", "flat", "operand_wellformed"]},
-            {"kind": "rec", "scenario": "C09", "count": {"quick": 2500, "thorough": 80000}, "trace_module": "Trace_Bmoc", "trace_cfg": "Trace_Bmoc.cfg",
+            {"kind": "rec", "profiles": ["release", "debug"], "other_profile_frac": 0.5, "scenario": "C09", "count": {"quick": 2500, "thorough": 80000}, "trace_module": "Trace_Bmoc", "trace_cfg": "Trace_Bmoc.cfg",
              "shards": 10, "clauses": ["wellformed", "entries", "raw_encoding", "deep_size", "ranges", "flat", "operand_wellformed"],
              "nontrivial": lambda ev: ev["ev"] in ("op", "view", "query", "fixed")},
         ],
@@ -289,7 +289,7 @@ PROPS = {
             {"kind": "gentrace", "module": "Gen_Bmoc", "cfg": {"quick": "Gen_Bmoc_cells.cfg", "thorough": "Gen_Bmoc_cells.cfg"}, "scenario": "BMOC",
              "trace_module": "Trace_Bmoc", "trace_cfg": "Trace_Bmoc.cfg", "exhaustive": True,
              "clauses": ["panic", "dmax", "wellformed", "same_map", "no_four_full_siblings", "lowered_map", "packed_if_asked", "operand_wellformed"]},
-            {"kind": "rec", "scenario": "C15", "count": {"quick": 4000, "thorough": 80000}, "trace_module": "Trace_Bmoc", "trace_cfg": "Trace_Bmoc.cfg",
+            {"kind": "rec", "profiles": ["release", "debug"], "other_profile_frac": 0.5, "scenario": "C15", "count": {"quick": 4000, "thorough": 80000}, "trace_module": "Trace_Bmoc", "trace_cfg": "Trace_Bmoc.cfg",
              "shards": 10, "nontrivial": lambda ev: ev["ev"] in ("fixed", "pack", "lower")},
         ],
     },
@@ -333,7 +333,7 @@ PROPS = {
             {"kind": "mc", "module": "MC_Geo", "cfg": {"quick": "MC_Geo.cfg", "thorough": "MC_Geo_thorough.cfg"}, "workers": 6},
             {"kind": "gentrace", "module": "Gen_Neigh", "cfg": {"quick": "Gen_Neigh.cfg", "thorough": "Gen_Neigh_thorough.cfg"}, "scenario": "C03",
              "trace_module": "Trace_Geo", "trace_cfg": "Trace_Geo.cfg", "exhaustive": True},
-            {"kind": "rec", "scenario": "C03", "count": {"quick": 12000, "thorough": 300000}, "trace_module": "Trace_Geo", "trace_cfg": "Trace_Geo.cfg",
+            {"kind": "rec", "profiles": ["release", "debug"], "scenario": "C03", "count": {"quick": 12000, "thorough": 300000}, "trace_module": "Trace_Geo", "trace_cfg": "Trace_Geo.cfg",
              "nontrivial": lambda ev: ev.get("cls") != "uniform"},
         ],
     },
@@ -350,7 +350,7 @@ PROPS = {
             {"kind": "mc", "module": "MC_Geo", "cfg": {"quick": "MC_Geo.cfg", "thorough": "MC_Geo_thorough.cfg"}, "workers": 6},
             {"kind": "gentrace", "module": "Gen_Neigh", "cfg": {"quick": "Gen_Neigh.cfg", "thorough": "Gen_Neigh_thorough.cfg"}, "scenario": "C19",
              "trace_module": "Trace_Geo", "trace_cfg": "Trace_Geo.cfg", "exhaustive": True},
-            {"kind": "rec", "scenario": "C19", "count": {"quick": 12000, "thorough": 300000}, "trace_module": "Trace_Geo", "trace_cfg": "Trace_Geo.cfg",
+            {"kind": "rec", "profiles": ["release", "debug"], "scenario": "C19", "count": {"quick": 12000, "thorough": 300000}, "trace_module": "Trace_Geo", "trace_cfg": "Trace_Geo.cfg",
              "nontrivial": lambda ev: ev.get("cls") != "uniform"},
         ],
     },
